@@ -24,6 +24,8 @@ EXEMPT = {
     ("dosini.py", "Dosini.parse_component", "S2-loop"): "every option is handled by its own branch: it appends at most one element to a list no other option appends to, or merges into the one docker dictionary",
     ("dosini.py", "Dosini.dump", "S1-listcomp"): "files to delete before writing: the order of deletion is irrelevant",
     ("dosini.py", "Dosini._comp_resource_manager_to_str", "S2-loop"): "order of the error objects in the list of errors only",
+    ("flowir.py", "schema_to_option_list", "S1-extend"): "the list of valid choices / keys quoted in an error message only (its three callers format it into the text)",
+    ("graph.py", "SubgraphSpanningNodes", "S1-extend"): "the nodes are handed to g.subgraph(..), a filter view of g: its node order is g's, not the list's",
     ("flowir.py", "validate_input_bindings_names", "S1-materialise"): "text of an error message only",
     ("flowir.py", "validate_provided_bindings", "S1-materialise"): "text of an error message only",
     ("flowir.py", "instantiate_dowhile", "S1-join"): "text of an error message only",
